@@ -40,6 +40,9 @@ def base_config():
             + G.route_block("/fwd", '  auth forward "{{FWD}}/check" {\n    timeout 300ms\n    copy_headers "X-User-Id"\n    copy_headers "x-org-id"\n  }\n')
             + G.route_block("/fwdclosed", '  auth forward "{{FWD_CLOSED}}/check" {\n    timeout 300ms\n  }\n')
             + G.route_block("/open")
+            # the only secret of this route is an environment variable holding white space: it is a secret like any other
+            # (a loader that trims it to nothing would leave an authenticator without secrets)
+            + G.route_block("/hmws", G.hmac_block(secrets=["env:VERIF_WS"], tolerance="5m"))
             + G.route_block("/small", G.hmac_block(secrets=["raw:k1"]), extra="  max_body 64b\n  max_headers 300b\n")
             + G.route_block("/fan", G.hmac_block(secrets=["raw:k1"]), pull=False,
                             delivers=["http://127.0.0.1:9/a", "http://127.0.0.1:9/b", "http://127.0.0.1:9/c"])
@@ -51,17 +54,17 @@ def base_config():
         "/rot2": [{"value": b"v1", "from": (T0 - 1000) * SEC, "until": T0 * SEC},
                   {"value": b"v3", "from": (T0 + 50) * SEC, "until": None}],
     }
-    return text, versions, {"VERIF_S3": "v3"}
+    return text, versions, {"VERIF_S3": "v3", "VERIF_WS": " \t "}
 
 
 # what the configuration text above SAYS about each route (the oracle must not learn the auth requirement from the compiled output only)
 EXPECT_AUTH = {"/hm": "hmac", "/hm2": "hmac", "/rot": "hmac", "/rot2": "hmac", "/basic": "basic", "/fwd": "forward", "/fwdclosed": "forward",
-               "/open": None, "/small": "hmac", "/fan": "hmac", "/rl": "basic"}
+               "/open": None, "/small": "hmac", "/fan": "hmac", "/rl": "basic", "/hmws": "hmac"}
 EXPECT_BASIC = {"/basic": {"alice": "s3cret", "bob": "pa:ss"}, "/rl": {"alice": "s3cret"}}
 NAMES = {"/hm2": ("X-Hub-Sig", "x-hub-time", "X-Request-Nonce")}
 DEFAULT_NAMES = ("X-Signature", "X-Timestamp", "X-Nonce")
-TOLS = {"/hm": TOL, "/hm2": SEC, "/rot": TOL, "/rot2": TOL, "/small": TOL, "/fan": TOL}
-STATIC = {"/hm": [b"k1"], "/hm2": [b"k2a", b"k2b"], "/rot": [b"inl"], "/rot2": [], "/small": [b"k1"], "/fan": [b"k1"]}
+TOLS = {"/hm": TOL, "/hm2": SEC, "/rot": TOL, "/rot2": TOL, "/small": TOL, "/fan": TOL, "/hmws": TOL}
+STATIC = {"/hm": [b"k1"], "/hm2": [b"k2a", b"k2b"], "/rot": [b"inl"], "/rot2": [], "/small": [b"k1"], "/fan": [b"k1"], "/hmws": [b" \t "]}
 
 FWD_CLASS = {"200": "F2xx", "204": "F2xx", "299": "F2xx", "200hdr": "F2xx", "302loc": "F2xx", "401": "F401", "403": "F403",
              "500": "FOther", "503": "FOther", "302": "FOther", "404": "FOther", "300": "FOther", "199": "FOther", "400": "FOther",
@@ -306,6 +309,10 @@ def build_cases(rng, tier):
     g = Gen(rng, 3 if tier == "quick" else 12)
     g.hmac_family("/hm")
     g.hmac_family("/hm2", light=(tier == "quick"))
+    g.hmac_family("/hmws", light=True)
+    g.put("/hmws", "ws-unsigned", {"method": "POST", "target": "/hmws", "headers": [], "body": b"{}"})
+    g.put("/hmws", "ws-foreign-key", g.signed("/hmws", secret=b"someone-else"))
+    g.put("/hmws", "ws-empty-key", g.signed("/hmws", secret=b""))
     if tier != "quick":
         g.hmac_family("/fan", light=True)
         g.hmac_family("/rot", light=True)
